@@ -583,6 +583,13 @@ def o_limits(w, tr):
         st = info.get('stream')
         if st is not None and hasattr(st, 'max_writers') and st.max_writers > 1:
             out.append(('C10:concurrent-writes', f'{st.max_writers} concurrent writes to destination of transfer {info["idx"]}'))
+    for info in w.transfers:
+        if info['op'] == 'download' and info['t'].get('dst') == 'nonseekable':
+            cat = info['stream'].concatenation()
+            if cat != info['expected'][:len(cat)]:
+                out.append(('C10:writes-not-in-queue-order',
+                            f'transfer {info["idx"]}: the stream received {_show(cat)}, which is not the order in which the writes were released '
+                            f'({_show(info["expected"])}); writes={_writes(info)}'))
     io_sub = [e[3]['fut'] for e in tr.ev('ex.submit') if e[3]['ex'] == 'ex2']
     io_start = [e[3]['fut'] for e in tr.ev('ex.start') if e[3]['ex'] == 'ex2']
     if io_start != io_sub[:len(io_start)]:
@@ -780,6 +787,8 @@ def o_cancel(w, tr):
             expectations.append((e[0], list(range(len(w.futures))), CancelledError, e[3]['msg']))
         elif k == 'ctrlc':
             expectations.append((e[0], list(range(len(w.futures))), CancelledError, None))
+    if script == 'with_clean' and tr.ev('inject'):
+        expectations = [(x[0], x[1], x[2], ('KeyboardInterrupt()' if x[3] is None else x[3])) for x in expectations]
     if script == 'with_raise_kbd':
         expectations.append((tr.first_step('user.submitted', idx=len(w.futures) - 1) or 0,
                              list(range(len(w.futures))), CancelledError, 'KeyboardInterrupt()'))
